@@ -1,5 +1,5 @@
 #!/bin/sh
-# tools/seed_verify.sh [pattern]  : re-confirm /verif/seeded/README.md - for every kept seeded change apply its patch
+# tools/seed_verify.sh [pattern]  (VERIFY_ONLY="C05 C08" restricts the run to claims about those checks): re-confirm /verif/seeded/README.md - for every kept seeded change apply its patch
 # to a scratch worktree of /repo HEAD and run the quick tier of every check named in meta.json "detected_by";
 # each must exit 1 with a VIOLATION line.  Prints one line per (change, check); exit 1 if any detection was lost.
 # The scratch worktree lives under /tmp and is removed at the end; /repo itself is never touched.
@@ -15,6 +15,7 @@ for d in seeded/$PAT/; do
   name=$(basename "$d")
   git -C "$W" checkout -q -- . && git -C "$W" apply "$PWD/$d/patch.diff" || { echo "$name: PATCH DOES NOT APPLY"; bad=1; continue; }
   for c in $(/opt/veriftools/pyvenv/bin/python -c "import json,sys; print(' '.join(json.load(open('$d/meta.json'))['detected_by']))"); do
+    if [ -n "${VERIFY_ONLY:-}" ]; then case " $VERIFY_ONLY " in *" $c "*) ;; *) continue ;; esac; fi
     VERIF_REPO="$W" ./check "$c" > /tmp/seed-verify.out 2>&1; rc=$?
     if [ $rc -eq 1 ] && grep -q "^VIOLATION property=$c " /tmp/seed-verify.out; then echo "$name: $c detects"; else echo "$name: $c MISSES (exit $rc)"; bad=1; fi
   done
